@@ -40,7 +40,7 @@ impl<'de: 'a, 'a> Deserialize<'de> for Method<'a> {
         #[serde(tag = "method", content = "parameters")]
         enum Helper<'a> {
             #[serde(rename = "org.varlink.service.GetInfo")]
-            GetInfo(Option<NoParameters>),
+            GetInfo(#[allow(dead_code)] Option<NoParameters>),
             #[serde(rename = "org.varlink.service.GetInterfaceDescription")]
             GetInterfaceDescription { interface: &'a str },
         }
